@@ -263,6 +263,28 @@ class _Canon(ast.NodeTransformer):
         """`int(line, base=16)` -> `int(line, 16)`, `s.split(maxsplit=2, sep=b" ")` -> `s.split(b" ", 2)` ..: one spelling of the
         arguments of builtins (argument expressions without effects only, since the order of evaluation may change)."""
         self.generic_visit(node)
+        # all(E(k) for k in ("a", "b")) over a literal display of constants is `E("a") and E("b")` (any: or) - the same
+        # evaluations in the same order, short-circuit included
+        if isinstance(node.func, ast.Name) and node.func.id in ("all", "any") and len(node.args) == 1 and not node.keywords and isinstance(node.args[0], (ast.GeneratorExp, ast.ListComp)):
+            ge = node.args[0]
+            if len(ge.generators) == 1 and not ge.generators[0].ifs and not ge.generators[0].is_async and isinstance(ge.generators[0].target, ast.Name) \
+                    and isinstance(ge.generators[0].iter, (ast.Tuple, ast.List)) and 2 <= len(ge.generators[0].iter.elts) <= 6 \
+                    and all(isinstance(x, ast.Constant) for x in ge.generators[0].iter.elts) and isinstance(ge, ast.GeneratorExp) \
+                    and (isinstance(ge.elt, ast.Compare) or (isinstance(ge.elt, ast.UnaryOp) and isinstance(ge.elt.op, ast.Not))) \
+                    and not any(isinstance(x, (ast.Lambda, ast.NamedExpr, ast.GeneratorExp, ast.ListComp, ast.SetComp, ast.DictComp)) for x in ast.walk(ge.elt)):
+                import copy as _copy
+
+                var = ge.generators[0].target.id
+
+                def inst(c_):
+                    class _S(ast.NodeTransformer):
+                        def visit_Name(self, n_):
+                            return ast.copy_location(_copy.deepcopy(c_), n_) if n_.id == var and isinstance(n_.ctx, ast.Load) else n_
+
+                    return _S().visit(_copy.deepcopy(ge.elt))
+
+                new = ast.BoolOp(op=ast.And() if node.func.id == "all" else ast.Or(), values=[inst(c_) for c_ in ge.generators[0].iter.elts])
+                return ast.fix_missing_locations(ast.copy_location(new, node))
         if not node.keywords or any(k.arg is None for k in node.keywords) or any(isinstance(a, ast.Starred) for a in node.args):
             return node
         key = ("name", node.func.id) if isinstance(node.func, ast.Name) else ("attr", node.func.attr) if isinstance(node.func, ast.Attribute) else None
@@ -431,6 +453,101 @@ def _canon_ifexp_assign(tree: ast.AST) -> int:
     return done
 
 
+def _canon_clamps(tree: ast.AST) -> int:
+    """`if x >= K: x = K` (no else) is `x = min(x, K)`; `if x <= K: x = K` is `x = max(x, K)` (also the strict forms and the
+    mirrored comparison; `if A and x >= K: x = K` is `if A: x = min(x, K)`).  The same number in every case (on a tie the two
+    spellings may pick the other of two equal numbers).  Range rules then meet ONE form of a clamp."""
+    import copy as _copy
+
+    done = 0
+    for holder in list(ast.walk(tree)):
+        for field in ("body", "orelse", "finalbody"):
+            b = getattr(holder, field, None)
+            if not (isinstance(b, list) and b and isinstance(b[0], ast.stmt)):
+                continue
+            for i, st in enumerate(b):
+                if not (type(st) is ast.If and not st.orelse and len(st.body) == 1 and type(st.body[0]) is ast.Assign and len(st.body[0].targets) == 1
+                        and isinstance(st.body[0].targets[0], ast.Name)):
+                    continue
+                x = st.body[0].targets[0].id
+                K = st.body[0].value
+                test, pre = st.test, None
+                if isinstance(test, ast.BoolOp) and isinstance(test.op, ast.And):
+                    pre, test = test.values[:-1], test.values[-1]
+                if not (isinstance(test, ast.Compare) and len(test.ops) == 1):
+                    continue
+                l, op, r = test.left, type(test.ops[0]).__name__, test.comparators[0]
+                if isinstance(r, ast.Name) and r.id == x and not (isinstance(l, ast.Name) and l.id == x):
+                    l, r = r, l
+                    op = {"Lt": "Gt", "Gt": "Lt", "LtE": "GtE", "GtE": "LtE"}.get(op, op)
+                if not (isinstance(l, ast.Name) and l.id == x and op in ("Lt", "Gt", "LtE", "GtE") and ast.dump(r) == ast.dump(K)):
+                    continue
+                if any(isinstance(y, (ast.Await, ast.Yield, ast.YieldFrom, ast.NamedExpr, ast.Lambda)) or (isinstance(y, ast.Name) and y.id == x) for y in ast.walk(K)):
+                    continue
+                fn_ = "min" if op in ("Gt", "GtE") else "max"
+                call = ast.Call(func=ast.Name(id=fn_, ctx=ast.Load()), args=[ast.Name(id=x, ctx=ast.Load()), _copy.deepcopy(K)], keywords=[])
+                new = ast.Assign(targets=[ast.Name(id=x, ctx=ast.Store())], value=call, type_comment=None)
+                ast.copy_location(new, st.body[0])
+                if pre:
+                    new = ast.If(test=pre[0] if len(pre) == 1 else ast.BoolOp(op=ast.And(), values=list(pre)), body=[new], orelse=[])
+                    ast.copy_location(new, st)
+                ast.fix_missing_locations(new)
+                b[i] = new
+                done += 1
+                # `x = E` right before the clamp: one statement `x = min(E, K)` (E is evaluated first in both)
+                if not pre and i > 0 and type(b[i - 1]) is ast.Assign and len(b[i - 1].targets) == 1 and isinstance(b[i - 1].targets[0], ast.Name) and b[i - 1].targets[0].id == x \
+                        and not any(isinstance(y, (ast.Await, ast.Yield, ast.YieldFrom, ast.NamedExpr, ast.Lambda)) for y in ast.walk(b[i - 1].value)):
+                    call.args[0] = b[i - 1].value
+                    b[i - 1] = ast.copy_location(ast.Pass(), b[i - 1])
+    return done
+
+
+def _canon_bool_temps(tree: ast.AST) -> int:
+    """`t = <comparison / and / or / not>` directly followed by an `if` whose test evaluates t first, t bound and read nowhere
+    else: the expression is tested where it was computed (`ready = c is None or c.done()` / `if not ready or ..:`)."""
+    from .inline import _first_evaluated
+
+    done = 0
+    for fn in [n for n in ast.walk(tree) if isinstance(n, (ast.FunctionDef, ast.AsyncFunctionDef))]:
+        counts: dict[str, list] = {}
+        for n in ast.walk(fn):
+            if isinstance(n, ast.Name):
+                c = counts.setdefault(n.id, [0, 0])
+                c[0 if isinstance(n.ctx, ast.Load) else 1] += 1
+        for holder in list(ast.walk(fn)):
+            for field in ("body", "orelse", "finalbody"):
+                b = getattr(holder, field, None)
+                if not (isinstance(b, list) and len(b) >= 2 and isinstance(b[0], ast.stmt)):
+                    continue
+                i = 0
+                while i + 1 < len(b):
+                    a, nxt = b[i], b[i + 1]
+                    i += 1
+                    if not (type(a) is ast.Assign and len(a.targets) == 1 and isinstance(a.targets[0], ast.Name) and type(nxt) is ast.If
+                            and isinstance(a.value, (ast.BoolOp, ast.Compare)) or (type(a) is ast.Assign and len(a.targets) == 1 and isinstance(a.targets[0], ast.Name) and type(nxt) is ast.If
+                                                                                   and isinstance(a.value, ast.UnaryOp) and isinstance(a.value.op, ast.Not))):
+                        continue
+                    t = a.targets[0].id
+                    if counts.get(t) != [1, 1] or any(isinstance(y, (ast.NamedExpr, ast.Await, ast.Yield, ast.YieldFrom, ast.Lambda)) for y in ast.walk(a.value)):
+                        continue
+                    go = _first_evaluated(nxt.test, lambda nd: isinstance(nd, ast.Name) and nd.id == t)
+                    # _first_evaluated does not descend into and/or: take the first operand chain by hand
+                    root, setter = nxt.test, (lambda v, n_=nxt: setattr(n_, "test", v))
+                    while isinstance(root, ast.BoolOp) or (isinstance(root, ast.UnaryOp) and isinstance(root.op, ast.Not)):
+                        if isinstance(root, ast.BoolOp):
+                            root, setter = root.values[0], (lambda v, n_=root: n_.values.__setitem__(0, v))
+                        else:
+                            root, setter = root.operand, (lambda v, n_=root: setattr(n_, "operand", v))
+                    r = go(root, setter)
+                    if r is None:
+                        continue
+                    r[0](a.value)
+                    del b[i - 1]
+                    i -= 1
+                    done += 1
+    return done
+
+
 def _canon_flag_loops(fn: ast.AST) -> int:
     """`while not done and ..:` whose body ends a round with `done = True`: a `break` is put behind that assignment.
 
@@ -468,6 +585,27 @@ def _canon_flag_loops(fn: ast.AST) -> int:
 
         for block in list(tails(loop.body)):
             block.append(ast.copy_location(ast.Break(), block[-1]))
+            done += 1
+
+        # `done = True; continue`: the jump to the loop test, which fails at the flag - the same `break`, wherever it stands
+        def conts(block: list):
+            for i, st in enumerate(block):
+                if isinstance(st, (ast.For, ast.AsyncFor, ast.While, ast.FunctionDef, ast.AsyncFunctionDef, ast.ClassDef)):
+                    continue
+                if isinstance(st, ast.Continue) and i > 0:
+                    p_ = block[i - 1]
+                    if type(p_) is ast.Assign and len(p_.targets) == 1 and isinstance(p_.targets[0], ast.Name) and p_.targets[0].id in flags \
+                            and isinstance(p_.value, ast.Constant) and isinstance(p_.value.value, bool) and p_.value.value is flags[p_.targets[0].id]:
+                        yield block, i
+                for fld in ("body", "orelse", "finalbody"):
+                    b_ = getattr(st, fld, None)
+                    if isinstance(b_, list) and b_ and isinstance(b_[0], ast.stmt):
+                        yield from conts(b_)
+                for h_ in getattr(st, "handlers", []) or []:
+                    yield from conts(h_.body)
+
+        for block, i in list(conts(loop.body)):
+            block[i] = ast.copy_location(ast.Break(), block[i])
             done += 1
     return done
 
@@ -693,6 +831,9 @@ class Program:
             self.inline_stats.update(inline_stable_aliases({mn: m.tree for mn, m in self.modules.items() if not mn.startswith(PKG + ".testing") and mn != PKG + ".testing"}))
         for m in self.modules.values():
             m.tree = _Canon().visit(m.tree)
+            if os.environ.get("VERIF_SA_NO_CLAMP") != "1" and not (m.name == PKG + ".testing" or m.name.startswith(PKG + ".testing.")):
+                self.inline_stats["clamps"] = self.inline_stats.get("clamps", 0) + _canon_clamps(m.tree)
+                self.inline_stats["bool_temps"] = self.inline_stats.get("bool_temps", 0) + _canon_bool_temps(m.tree)
             if os.environ.get("VERIF_SA_NO_IFEXP") != "1" and not (m.name == PKG + ".testing" or m.name.startswith(PKG + ".testing.")):
                 self.inline_stats["ifexp_assigns"] = self.inline_stats.get("ifexp_assigns", 0) + _canon_ifexp_assign(m.tree)
             if os.environ.get("VERIF_SA_NO_ACCLOOP") != "1" and not (m.name == PKG + ".testing" or m.name.startswith(PKG + ".testing.")):
